@@ -472,6 +472,7 @@ package dawn
 //@   requires no-locks: !holds(proj.m) && (forall x: *dawn.module :: !holds(x.m))
 //@   callsite load: assert only-the-creator-loads: !old(allocated($0))
 //@   ensures at-most-one-load: n_modload <= old(n_modload) + 1
+//@   ensures edge-withdrawn-on-every-return: waiter != nil ==> announced[waiter] == nil
 //@   modifies heap, n_modload, announced, wakes
 
 //@ func dawn.newLineWriter
